@@ -479,7 +479,9 @@ def run(res, tier, seed, replay):
         rule="a case is a multiset of 2..5 contributors (import name, own Types collection built through add_*, required "
              "kind) run under ALL permutations of the contributor order (<=120) on a fresh TypeAggregator with one shared "
              "SubtypeChecker. Generated from one seed: instance requirements with 1..4 exports drawn from function / defined "
-             "type / enum-flags-variant / nested instance / value / resource / component variants (a per-multiset default "
+             "type / enum-flags-variant / nested instance (anonymous, or with an interface identifier equal to / different from the "
+             "export name, versioned on one or several tracks; subset / superset / incomparable / conflicting export sets) / "
+             "value / resource / component variants (a per-multiset default "
              "variant, conflicting variants with probability 1/4 in conflict families), interfaces that `use` a type or a "
              "resource of a dependency interface at compatible / incompatible / other versions, dependencies contributed "
              "directly, duplicates sharing one Types collection; names: plain, versioned triples on the same and on "
